@@ -615,6 +615,45 @@ func evalC05(c *Ctx, cs *Case) {
 					viol(name, "rows.differ-from-model", "sequence-obtained-before-adds", map[string]any{"got": got, "err": errStr(o.Err)})
 				}
 			}
+			// the same sequence value ranged over INSIDE a loop over itself (all pairs of nodes): the
+			// outer loop still visits every node once, and every inner loop is a complete walk
+			if len(want) <= 40 {
+				var outerRows []string
+				pairs, badInner := 0, 0
+				o := Guard(func() error {
+					for x, err := range seq {
+						if err != nil {
+							return err
+						}
+						outerRows = append(outerRows, x.Row())
+						inner := 0
+						for y, err := range seq {
+							if err != nil {
+								return err
+							}
+							if inner < len(want) && y.Row() != want[inner].Row {
+								badInner++
+							}
+							inner++
+							pairs++
+						}
+						if inner != len(want) {
+							badInner++
+						}
+					}
+					return nil
+				})
+				c.Count("sequences_ranged_inside_a_loop_over_themselves", 1)
+				okOuter := len(outerRows) == len(want)
+				for i := range outerRows {
+					if okOuter && outerRows[i] != want[i].Row {
+						okOuter = false
+					}
+				}
+				if o.Panic != nil || o.Err != nil || !okOuter || badInner > 0 || pairs != len(want)*len(want) {
+					viol(name, "rows.differ-from-model", "sequence-ranged-inside-itself", map[string]any{"nodes": len(want), "outer_visits": len(outerRows), "pairs": pairs, "want_pairs": len(want) * len(want), "incomplete_or_wrong_inner_walks": badInner, "err": errStr(o.Err), "panic": fmt.Sprint(o.Panic)})
+				}
+			}
 			c.Eval(gen.HashString(fkey+"keptseq"+root.Name+strconv.Itoa(fam)), true)
 			c.Count("kept_sequence_passes", int64(len(passes)))
 			det := map[string]any{"passes": len(passes), "err": errStr(perr)}
